@@ -380,7 +380,7 @@ def main(tier):
     ns = {name: env[key] for key, name in refs.items()}
     if walk(wrong, env) == eval(ptext, {"__builtins__": {}}, ns):  # noqa: S307
         run.inconclusive_because("positive control did not fire: meaning oracle accepts a right fold of a - b - c")
-    run_shards(run, "c12", 12 if tier == "quick" else 16, timeout_s=900 if tier == "quick" else 14400)
+    run_shards(run, "c12", 12 if tier == "quick" else 16, timeout_s=3600 if tier == "quick" else 14400)
     c = run.counters
     if c.get("meaning_checks", 0) < 5000 or c.get("formats_round_tripped", 0) != 443 or c.get("rejections_typed", 0) < 500:
         run.inconclusive_because(f"too little was observed: {c.get('meaning_checks', 0)} meaning checks, {c.get('formats_round_tripped', 0)} formats, {c.get('rejections_typed', 0)} rejections")
